@@ -23,9 +23,11 @@ FORBIDDEN = re.compile(r"\b(Admitted|admit|Axiom|Axioms|Parameter|Parameters|Con
                        r"|Unset\s+Guard|bypass_check|Admit\s+Obligations|-type-in-type|-impredicative-set|Unset\s+Universe\s+Checking|Unset\s+Positivity")
 
 
-class Violation(Exception):
-    def __init__(self, prop, replay, nofail=False, msg=""):
-        self.prop, self.replay, self.nofail, self.msg = prop, replay, nofail, msg
+class ExtendSearch(Exception):
+    """raised instead of reporting `no-failing-input-found` the first time a correspondence breaks: the driver then
+    re-runs the check with five times the cases (fresh part of the same PRNG stream) looking for a failing input"""
+    def __init__(self, payload):
+        self.payload = payload
 
 
 def sh(cmd, cwd=None, timeout=None, env=None):
@@ -256,8 +258,9 @@ TRUSTED_COMMON = [
 class Run:
     """State of one check run: obligations, correspondence batches, distribution, verdict."""
 
-    def __init__(self, prop, tier, seed):
+    def __init__(self, prop, tier, seed, scale=1):
         self.prop, self.tier, self.seed = prop, tier, seed
+        self.scale = scale          # > 1 in the extended search
         self.t0 = time.time()
         self.obligations = []      # (name, ok, detail)
         self.samples = []
@@ -284,6 +287,10 @@ class Run:
 
 
 def violation(run, payload, nofail=False):
+    if nofail and run.scale == 1 and ("tie_breaking_case" in payload or "tie_breaking_history" in payload):
+        raise ExtendSearch(payload)
+    if run.scale > 1:
+        payload = dict(payload, extended_search="cases x%d" % run.scale)
     payload = dict(payload, property=run.prop, tier=run.tier, seed=run.seed)
     path = write_replay(run.prop, payload)
     run.finish(violations=1)
